@@ -188,6 +188,9 @@ def reference_closure(seed_smiles, rules, cap=250):
     return species, napp
 
 
+_RULE_OBJECTS = {}
+
+
 def check_case(ctx, case):
     from pgradd.RDkitWrapper.GenRxnNet import GenerateRxnNet
     seeds = case['seeds']
@@ -203,8 +206,15 @@ def check_case(ctx, case):
     import pgradd.RDkitWrapper.GenRxnNet as G
     saved = (G.Read, G.ReactionFromSmarts)
     if entry == 'objects':
-        real_rules = [CountingRule(make_rule(kind, n), counter)
-                      for n in names]
+        # rule OBJECTS live as long as the shard: each is applied to the
+        # species of many networks, as a user's rule set would be
+        real_rules = []
+        for n in names:
+            if (kind, n) not in _RULE_OBJECTS:
+                _RULE_OBJECTS[(kind, n)] = make_rule(kind, n)
+            else:
+                ctx.count('rule_objects_reused_across_networks')
+            real_rules.append(CountingRule(_RULE_OBJECTS[(kind, n)], counter))
         real_seeds = list(seeds)
     else:
         # the documented entry: rules handed over as TEXT (RING text, or
